@@ -1,4 +1,5 @@
 import YModel.TensorIO
+import YModel.Slice
 import YModel.DriverCore
 /-! Program executor for the tensor model: C01/C02/C14 (and reused by others). -/
 namespace YModel.Drv.C01
@@ -112,6 +113,17 @@ def prog (j : Json) : R Json := do
   let inWf := inputs.map (fun T => Json.bool (wfCheck ((T.sym.expr.moduli T.sym.nsym).getD []) T))
   pure (obj [("vals", Json.arr outs), ("dense", Json.arr dense), ("inputs_wf", Json.arr inWf.toArray)])
 
-def handlers : List (String × Handler) := [("prog", prog)]
+/-- {op:"slice_uniform", cases:[[Ds, size]…]} → {res:[[[ [sector, start, stop]… ]…]…]} -/
+def sliceUniformH (j : Json) : R Json := do
+  let cases ← arr (← field j "cases")
+  let res ← cases.toList.mapM (fun c => do
+    let a ← arr c
+    let Ds ← nats a[0]!
+    let size ← nat a[1]!
+    pure (ofList (fun (sl : List (Nat × Nat × Nat)) => ofList (fun (x : Nat × Nat × Nat) => ofNats [x.1, x.2.1, x.2.2]) sl)
+      (YModel.Slice.sliceUniform Ds size)))
+  pure (obj [("res", Json.arr res.toArray)])
+
+def handlers : List (String × Handler) := [("prog", prog), ("slice_uniform", sliceUniformH)]
 
 end YModel.Drv.C01
